@@ -416,10 +416,16 @@ func propC13Clock(c clockCase, o *hx.Obs) *hx.Failure {
 		d := &hx.Driver{}
 		s.SetUciHandler(d)
 		defer s.StopSearch()
-		lim := hx.LimSpec{Mode: "clock", WTime: c.ClockMs, BTime: c.ClockMs, WInc: c.IncMs, BInc: c.IncMs, MovesToGo: c.MovesToGo, StopAfterMs: -1, PonderHitAfterMs: -1}
+		// the mover has ClockMs on the clock, the opponent ten times as much (a budget or cap computed from the
+		// wrong side's clock must show)
+		lim := hx.LimSpec{Mode: "clock", WTime: c.ClockMs, BTime: 10 * c.ClockMs, WInc: c.IncMs, BInc: c.IncMs, MovesToGo: c.MovesToGo, StopAfterMs: -1, PonderHitAfterMs: -1}
+		if !rp.White {
+			lim.WTime, lim.BTime = 10*c.ClockMs, c.ClockMs
+		}
+		bookLim := hx.LimSpec{Mode: "clock", WTime: c.ClockMs, BTime: c.ClockMs, MovesToGo: c.MovesToGo, StopAfterMs: -1, PonderHitAfterMs: -1}
 		if c.AfterBook {
 			sp := rc.MustParse(rc.StartFEN)
-			out := hx.RunSearch(s, d, hx.NewPos(rc.StartFEN), &sp, lim, 30*time.Second)
+			out := hx.RunSearch(s, d, hx.NewPos(rc.StartFEN), &sp, bookLim, 30*time.Second)
 			if out.Hung || len(out.Sent) == 0 {
 				return 0, false, "book search not answered"
 			}
